@@ -24,8 +24,9 @@ func TestDrive(t *testing.T) {
 		t.Fatal(err)
 	}
 	defer tw.Close()
+	det := lib.EnvStr("VERIF_DET", "") != ""
 	for _, s := range scheds {
-		w := NewWorld(t, s.Kind, s.TP)
+		w := NewWorld(t, s.Kind, s.TP, s.Opt)
 		tw.Emit(TraceLine{Tr: s.ID, I: 0, Kind: s.Kind, TP: s.TP, A: json.RawMessage(`{"a":"Init","c":"A","dt":0}`), Res: "ok", St: w.State()})
 		for i, raw := range s.Acts {
 			var a Action
@@ -33,7 +34,11 @@ func TestDrive(t *testing.T) {
 				t.Fatalf("schedule %s step %d: %v", s.ID, i+1, err)
 			}
 			res, errStr := w.Exec(a)
-			tw.Emit(TraceLine{Tr: s.ID, I: i + 1, Kind: s.Kind, TP: s.TP, A: raw, Res: res, Err: errStr, St: w.State()})
+			tl := TraceLine{Tr: s.ID, I: i + 1, Kind: s.Kind, TP: s.TP, A: raw, Res: res, Err: errStr, St: w.State()}
+			if det {
+				tl.Det = w.Det()
+			}
+			tw.Emit(tl)
 		}
 	}
 }
